@@ -692,10 +692,17 @@ def run_check(spec, tier, seed):
             rec = {"reproduced": ok}
             r["replay"] = {"path": rpath, "reproduced": ok}
         else:
-            rec, rpath = replay_counterexample(pid, crate_of(h), h, outdir)
-            r["replay"] = {"path": rpath, "reproduced": rec.get("reproduced"), "values": rec.get("concrete_values")}
             fallback = (spec.get("native_replay") or {}).get(h.short)
-            if rec.get("reproduced") is None and fallback:
+            rec = {"reproduced": None}
+            if fallback and h.expect == "known_finding":
+                # a recorded finding has its own native demonstration: cheaper than asking Kani for a playback test
+                ok, rpath = fallback(pid, h, r)
+                rec = {"reproduced": ok}
+                r["replay"] = {"path": rpath, "reproduced": ok, "via": "native demonstration test of the harness crate"}
+            if not rec.get("reproduced"):
+                rec, rpath = replay_counterexample(pid, crate_of(h), h, outdir)
+                r["replay"] = {"path": rpath, "reproduced": rec.get("reproduced"), "values": rec.get("concrete_values")}
+            if rec.get("reproduced") is None and fallback and h.expect != "known_finding":
                 # Kani could not produce a playback test (typically: out of memory while building the trace).
                 # The spec names a native test of the harness crate that exercises this harness' input class.
                 ok, rpath = fallback(pid, h, r)
